@@ -106,6 +106,27 @@ Theorem C14_source_max_fragment_eq_model : forall mtu t, int_small mtu ->
 Proof. exact xl_maxFragmentSizeInternal_eq_model. Qed.
 Print Assumptions C14_source_max_fragment_eq_model.
 
+(* likewise maxFragmentSize, lowEntropyEncodedPayloadLen and the mode table buildLowEntropyParams: an error result of the
+   source is [true] in the second component of the translation and [None] in the model (of_opt); lowEntropyEncodedPayloadLen
+   divides by the table's value, so its translation is partial (None = run-time panic) and the theorem shows it never is *)
+Theorem C14_source_max_fragment_size_eq_model : forall mtu t mode, int_small mtu ->
+  xl_protocol_maxFragmentSize mtu t mode = of_opt (max_fragment mtu t mode).
+Proof. exact xl_maxFragmentSize_eq_model. Qed.
+Print Assumptions C14_source_max_fragment_size_eq_model.
+
+Theorem C14_source_le_encoded_len_eq_model : forall n mode, int_small n ->
+  xl_protocol_lowEntropyEncodedPayloadLen n mode = Some (of_opt (le_encoded_len n mode)).
+Proof. exact xl_lowEntropyEncodedPayloadLen_eq_model. Qed.
+Print Assumptions C14_source_le_encoded_len_eq_model.
+
+Theorem C14_source_mode_table : forall mode,
+  match src_bytes mode with
+  | Some sb => exists w, xl_protocol_buildLowEntropyParams mode = ((sb, w), false)
+  | None => xl_protocol_buildLowEntropyParams mode = ((0, 0), true)
+  end.
+Proof. exact xl_buildLowEntropyParams_eq_model. Qed.
+Print Assumptions C14_source_mode_table.
+
 (* C14_mtu with the padding maxima computed by the translated source (no traffic pattern: configured maxima only lower
    them), and each padding within its length byte *)
 Theorem C14_source_mtu_bound : forall mtu mode is_client first n s p1 p2,
